@@ -62,6 +62,12 @@ pub struct Scenario {
     /// 2 = restored from the built one's serialised bytes
     #[serde(default)]
     pub provenance: u8,
+    /// 0 = nothing extra; otherwise, at the end, every opened handle's final stream content is
+    /// searched once more through both entry points, each consumed by `pre` calls of `next()`
+    /// followed by `Iterator` method number `finish_style - 1` (see `pma::consume`), and the two
+    /// must agree
+    #[serde(default)]
+    pub finish_style: u8,
 }
 
 #[derive(Clone, Debug, Serialize, Deserialize)]
@@ -619,6 +625,33 @@ fn exec<'a>(
                 hspec.method, hst.got, want
             );
         }
+        // the slice entry point takes any `AsRef` container, also one that stores the bytes
+        // inline and is moved together with the search iterator
+        if let Some(inl) = pma::InlineHay::new(fin) {
+            let wi: Vec<Mt> = pma.open_slice_inline(hspec.method, inl).collect();
+            let ok = if hst.finished { hst.got == wi } else { is_prefix(&hst.got, &wi) };
+            if !ok {
+                viol!(
+                    "same-matches",
+                    "handle {h} ({:?}): iterator returned {:?}; slice search of the {} final bytes passed by value in an inline container gives {:?}",
+                    hspec.method, hst.got, fin.len(), wi
+                );
+            }
+        }
+        // both entry points consumed through the same mix of next() and another Iterator method
+        if sc.finish_style > 0 && h < 3 {
+            let style = sc.finish_style - 1;
+            let pre = (hst.got.len() + h) % 4;
+            let a = pma.consume_iter(hspec.method, Box::new(fin.to_vec().into_iter()), pre, style);
+            let b = pma.consume_slice(hspec.method, pma::Hay::plain(fin), pre, style);
+            if a != b {
+                viol!(
+                    "same-matches",
+                    "handle {h} ({:?}): {pre} next() call(s) then {} give {:?} on the byte-iterator search and {:?} on the slice search of the same {} bytes",
+                    hspec.method, pma::style_name(style), a, b, fin.len()
+                );
+            }
+        }
     }
     None
 }
@@ -745,6 +778,7 @@ pub fn generate(seed: u64) -> Scenario {
         handles,
         events,
         provenance: *rng.pick(&[0u8, 0, 0, 1, 2]),
+        finish_style: if rng.chance(1, 2) { 1 + rng.below(pma::N_STYLES as usize) as u8 } else { 0 },
     }
 }
 
@@ -859,7 +893,8 @@ fn generate_long(rng: &mut Rng, spec: Spec) -> Scenario {
         events.push(Ev::Drain { handle: h });
     }
     let provenance = *rng.pick(&[0u8, 0, 1, 2]);
-    Scenario { spec, streams: vec![content], handles, events, provenance }
+    let finish_style = if rng.chance(1, 3) { 1 + rng.below(pma::N_STYLES as usize) as u8 } else { 0 };
+    Scenario { spec, streams: vec![content], handles, events, provenance, finish_style }
 }
 
 /// Thorough tier: for one sampled (spec, content), every truncation point (every byte, or
@@ -911,6 +946,7 @@ pub fn sweep_scenarios(base: &Scenario) -> Vec<Scenario> {
                     handles: vec![HandleSpec { method: *m, stream: 0, hint }],
                     events: ev,
                     provenance: base.provenance,
+                    finish_style: if (cut + mi) % 3 == 0 { 1 + ((cut + mi + sched) % pma::N_STYLES as usize) as u8 } else { 0 },
                 });
             }
         }
@@ -1065,6 +1101,13 @@ fn minimise_inner(sc: &Scenario, class: &str) -> Scenario {
         if cur.provenance != 0 {
             let mut c = cur.clone();
             c.provenance = 0;
+            if fails_same(&c, class) {
+                cur = c;
+            }
+        }
+        if cur.finish_style != 0 {
+            let mut c = cur.clone();
+            c.finish_style = 0;
             if fails_same(&c, class) {
                 cur = c;
             }
